@@ -44,6 +44,12 @@ var verifVocabSoup = []string{
 	"(", ")", "[", "]", "{", "}", "<", ">", ">>", ",", ";", "CASE", "WHEN", "THEN", "END", "AS", "FROM", "UNION", "a", "1", "/*c*/", "SELECT", ".", "-", "a/*c*/b", "-/*c*/-",
 }
 
+var verifVocabDDL = []string{
+	"CREATE", "ALTER", "DROP", "TABLE", "INDEX", "OR", "REPLACE", "VIEW", "IF", "NOT", "EXISTS", "SEQUENCE", "CHANGE", "STREAM", "ROLE", "MODEL",
+	"UNIQUE", "NULL_FILTERED", "SEARCH", "SCHEMA", "DATABASE", "PROPERTY", "GRAPH", "RENAME", "GRANT", "REVOKE", "ANALYZE", "CALL", "INSERT", "DELETE", "UPDATE",
+	"t", "1", "(", ")", ";", "SELECT", "SET", "OPTIONS", "ON", "ADD", "COLUMN", ",", "@{h=1}",
+}
+
 func verifVocab(id int) []string {
 	switch id {
 	case 0:
@@ -56,6 +62,8 @@ func verifVocab(id int) []string {
 		return verifVocabType
 	case 4:
 		return verifVocabQuery
+	case 6:
+		return verifVocabDDL
 	}
 	return verifVocabSoup
 }
